@@ -1042,8 +1042,24 @@ def sobol_fit_section(ctx, meas):
                 cc = np.corrcoef(u.T)
                 off = np.abs(cc - np.eye(d)).max()
                 meas.add('sobol:max|corr|', float(off))
-                if off > 0.08:
+                # The absolute bound 0.08 is only meaningful in low dimension: with 1023 points the classical (Joe–Kuo) Sobol
+                # sequence itself has 2-D projections with |corr| ≈ 0.19 (d = 100) and 0.23 (d = 400) — SciPy's unscrambled
+                # generator gives exactly the same numbers — so for d > 40 the oracle is the reference sequence (below).
+                if d <= 40 and off > 0.08:
                     ctx.violation('Sobol coordinates are correlated', dict(case, max_abs_corr=float(off)), clause='sobol-independent')
+            # the generator is the classical Sobol sequence with Joe–Kuo direction numbers: point for point equal to SciPy's
+            # unscrambled reference (trusted base: SciPy), in every dimension
+            try:
+                from scipy.stats import qmc
+                ref = qmc.Sobol(d, scramble=False).random(2 ** k)[1:]
+            except Exception:  # noqa: BLE001  (reference unavailable: no verdict)
+                ref = None
+            if ref is not None and not np.array_equal(u, ref):
+                bad = np.argwhere(u != ref)
+                ctx.violation('Sobol points differ from the reference (Joe–Kuo) Sobol sequence',
+                              dict(case, first_diff_point=int(bad[0][0]) + 1, first_diff_coordinate=int(bad[0][1]),
+                                   got=float(u[bad[0][0], bad[0][1]]), reference=float(ref[bad[0][0], bad[0][1]])),
+                              clause='sobol-reference')
             u2 = get_uniform_sobol.py_func(npts, d) if (d <= 3 and k <= 7) else None
             if u2 is not None and not np.array_equal(u, u2):
                 ctx.violation('get_uniform_sobol: compiled result differs from the interpreted Python source',
